@@ -1237,6 +1237,76 @@ def supplied_part(inp):
     return {"ok": witness is None, "cases": cases, "witness": witness, "unsolved": len(unsolved)}
 
 
+def section_equivalence(inp):
+    """property C09 natively: a pipe with n sections gives the results of n single-section pipes in series (outlet
+    temperature, end pressures, mass flow), for every labelling order of the pipes; and a pipe drawn against the flow gives
+    the results of the pipe drawn along it (orientation)"""
+    import pandapipes as pp
+    cases, witness = 0, None
+    secs = [2, 3, 1]
+    spec = [(0, 1, 0.4), (1, 2, 0.6), (1, 3, 0.5)]          # (from, to, length) of the three pipes
+
+    def base(reverse=()):
+        net = pp.create_empty_network(fluid="water")
+        j = list(pp.create_junctions(net, 4, pn_bar=5., tfluid_k=320., height_m=[0., 4., 1., 6.]))
+        # feed temperature = start temperature of the junctions: in sequential mode the hydraulic step runs on the start
+        # temperatures, which are then the same physical field for every orientation
+        pp.create_ext_grid(net, j[0], p_bar=5., t_k=320., type="pt")
+        pp.create_sink(net, j[2], 0.8)
+        pp.create_sink(net, j[3], 0.5)
+        return net, j
+
+    def sectioned(labels, reverse=()):
+        net, j = base()
+        for k_, (a, b, ln) in enumerate(spec):
+            fa, fb = (j[b], j[a]) if k_ in reverse else (j[a], j[b])
+            pp.create_pipe_from_parameters(net, fa, fb, ln, 100., k_mm=0.2, u_w_per_m2k=20., sections=secs[k_], text_k=280., index=labels[k_])
+        return net
+
+    def series():
+        net, j = base()
+        last = {}
+        h = [0., 4., 1., 6.]
+        for k_, (a, b, ln) in enumerate(spec):
+            n_ = secs[k_]
+            prev = j[a]
+            for q in range(n_):
+                if q == n_ - 1:
+                    nxt = j[b]
+                else:
+                    nxt = pp.create_junction(net, pn_bar=5., tfluid_k=320., height_m=h[a] + (h[b] - h[a]) * (q + 1) / n_)
+                idx = pp.create_pipe_from_parameters(net, prev, nxt, ln / n_, 100., k_mm=0.2, u_w_per_m2k=20., sections=1, text_k=280.)
+                prev = nxt
+            last[k_] = idx
+        return net, last
+
+    ref, last = series()
+    pp.pipeflow(ref, mode="sequential")
+    for labels in itertools.permutations([0, 1, 2]):
+        for use_numba in (False, True):
+            for reverse in ((), (1,), (0, 2)):
+                cases += 1
+                net = sectioned(labels, reverse)
+                try:
+                    pp.pipeflow(net, mode="sequential", use_numba=use_numba)
+                except Exception as e:  # noqa
+                    if witness is None:
+                        witness = {"labels": labels, "reverse": reverse, "observed": "%s: %s" % (type(e).__name__, str(e)[:120])}
+                    continue
+                for k_ in range(3):
+                    rev = k_ in reverse
+                    a = net.res_pipe.loc[labels[k_]]
+                    b = ref.res_pipe.loc[last[k_]]
+                    got = {"t_outlet_k": a.t_outlet_k, "p_end": a.p_from_bar if rev else a.p_to_bar,
+                           "mdot": -a.mdot_from_kg_per_s if rev else a.mdot_from_kg_per_s}
+                    want = {"t_outlet_k": b.t_outlet_k, "p_end": b.p_to_bar, "mdot": b.mdot_from_kg_per_s}
+                    bad = [q for q in got if abs(got[q] - want[q]) > 1e-5 * max(1., abs(want[q]))]
+                    if bad and witness is None:
+                        witness = {"pipe_labels_in_creation_order": labels, "pipes_drawn_against_the_flow": reverse, "use_numba": use_numba,
+                                   "pipe": k_, "sections": secs[k_], "differs": {q: (float(got[q]), float(want[q])) for q in bad}}
+    return {"ok": witness is None, "cases": cases, "witness": witness}
+
+
 def main():
     inp = json.load(sys.stdin)
     fn = globals()[inp["what"]]
